@@ -314,6 +314,26 @@ def run_unit(ctx, u):
                     exp_names = [f"b#{first}"] if first is not None else ["b#7"]
                     ok = [e[0] for e in log.events] == exp_names and name == (f"b{first}" if first is not None else "default") and bool(torch.equal(out, f(first if first is not None else 7, x0)))
                     ctx.check(ok, "branching:first matching branch only", "BranchingModel|overlapping conditions|branching:first matching branch only|wrong branch / more than one ran", truth=list(truth), ran=[e[0] for e in log.events], reported=name)
+        # one model, a sequence of inputs that alternates between overlapping branches: every call runs the first
+        # matching branch in registration order, whatever the previous calls took (also after a removal)
+        log = Log()
+        m = BranchingModel()
+        conds = [("small", lambda x: float(x.sum()) < 5, 0), ("medium", lambda x: float(x.sum()) < 10, 1), ("any", lambda x: True, 2)]
+        for nm_, c_, j in conds:
+            m.add_branch(nm_, c_, RecModel(log, f"b#{j}", j))
+        m.set_default_branch(RecModel(log, "b#7", 7))
+        seq_sums = [-1.0, 3.0, 7.0, 12.0, 7.0, 3.0, 12.0, -1.0, 7.0, 7.0, 3.0]
+        for step, sm in enumerate(seq_sums + seq_sums[::-1]):
+            if step == len(seq_sums):
+                m.remove_branch("medium")
+                conds = [c for c in conds if c[0] != "medium"]
+            xs = torch.full((4,), sm / 4)
+            log.events.clear()
+            out, name = m(xs, return_branch=True)
+            exp = next(((nm_, j) for nm_, c_, j in conds if c_(xs)), ("default", 7))
+            ctx.case("branching-seq", step, sm)
+            ok = [e[0] for e in log.events] == [f"b#{exp[1]}"] and name == exp[0]
+            ctx.check(ok, "branching:first matching branch only", "BranchingModel|one model across a sequence of inputs|branching:first matching branch only|wrong branch after earlier calls", step=step, input_sum=sm, ran=[e[0] for e in log.events], reported=name, expected=exp[0])
         # convenience constructor
         for c in (True, False):
             log = Log()
@@ -430,6 +450,30 @@ def run_unit(ctx, u):
                         else:
                             exp = tuple(f(i, xv) for i in range(n))
                             ctx.check(out == exp, "parallel:aggregator gets declared order", f"ParallelModel|{cls}|parallel:aggregator gets declared order|aggregator saw another order", n=n, workers=w, completion_order=list(perm), got=list(out), expected=list(exp))
+            # branches that raise: the failed branch keeps its declared position (its slot carries the error text),
+            # for every subset of failing branches and a range of start delays
+            if n >= 2:
+                for fail in itertools.chain.from_iterable(itertools.combinations(range(n), r) for r in (1, 2)):
+                    if len(fail) >= n:
+                        continue
+                    for rep in range(3):
+                        delays = [rng.uniform(0, 0.004) for _ in range(n)]
+
+                        def mkb(i):
+                            def br(v, *a, **kw):
+                                time.sleep(delays[i])
+                                if i in fail:
+                                    raise ValueError(f"boom{i}")
+                                return f(i, v)
+
+                            return br
+
+                        for w in (n, None):
+                            m = ParallelModel(max_workers=w, steps=[(f"br{i}", mkb(i)) for i in range(n)], aggregator=lambda rs: tuple(rs))
+                            out = m(xv)
+                            ctx.case("parallel-fail", n, fail, rep, w)
+                            ok = isinstance(out, tuple) and len(out) == n and all((isinstance(out[i], str) and f"boom{i}" in out[i]) if i in fail else (not isinstance(out[i], str) and out[i] == f(i, xv)) for i in range(n))
+                            ctx.check(ok, "parallel:aggregator gets declared order", "ParallelModel|failing branches|parallel:aggregator gets declared order|aggregator saw another order", n=n, failing=list(fail), got=[str(o)[:20] for o in out] if isinstance(out, tuple) else str(out)[:80])
             ctx.note_add("distinct_forced_completion_orders_observed", len(observed_orders))
             ctx.note_set_add("forced_orders_by_n", {"n": n, "orders": len({o[2] for o in observed_orders}), "worker_settings": len({o[1] for o in observed_orders})})
             ctx.exhaustive_units += 1
